@@ -1,5 +1,5 @@
 """Property -> rules mapping."""
-from .rules import cfg, det, errsel, fmtdec, fmtparse, hdr, hyg, idx, ops, rawid
+from .rules import cfg, conv, det, errsel, fmtdec, fmtparse, hdr, hyg, idx, ops, rawid
 
 PROPS = {}
 
@@ -97,3 +97,5 @@ prop("C07", [fmtdec.rule_shared_reject, fmtdec.rule_shared_decision, fmtdec.rule
 prop("C09", [idx.rule_idx_space, errsel.rule_view_defs, errsel.rule_error_selection], meta={"explanation": "wip"})
 
 prop("C10", [ops.rule_tpl_role, ops.rule_unary, ops.rule_method_names], meta={"explanation": "wip"})
+
+prop("C08", [conv.rule_merge_symmetry, conv.rule_from_table, conv.rule_field_order], meta={"explanation": "wip"})
